@@ -215,7 +215,7 @@ func runOPTAB(c *Ctx, r *Result, rule string) int {
 			r.LoseAnchor("OPTAB: %s has no switch on node.Type that yields one value per operator", sp.fn)
 			continue
 		}
-		got := map[string]string{}
+		got := map[string][]string{}
 		caseVals := map[ssa.Value]bool{}
 		for i, e := range best.Edges {
 			entry := caseEntry(best.Block().Preds[i], isTag)
@@ -230,7 +230,7 @@ func runOPTAB(c *Ctx, r *Result, rule string) int {
 				if nm == "" {
 					nm = fmt.Sprintf("%s(%d)", sp.enum, k)
 				}
-				got[nm] = ex
+				got[nm] = append(got[nm], ex)
 			}
 		}
 		var ops []string
@@ -241,11 +241,15 @@ func runOPTAB(c *Ctx, r *Result, rule string) int {
 		for _, nm := range ops {
 			n++
 			o := Obligation{Rule: rule, Key: "op:" + nm, Fn: shortFn(f), Pos: c.W.Pos(f.Pos()), Nontrivial: true}
-			ex, has := got[nm]
-			okv := false
-			for _, w := range sp.want[nm] {
-				if ex == w {
-					okv = true
+			exs, has := got[nm]
+			ex := strings.Join(exs, " | ")
+			okv := len(exs) == 1
+			if okv {
+				okv = false
+				for _, w := range sp.want[nm] {
+					if exs[0] == w {
+						okv = true
+					}
 				}
 			}
 			switch {
@@ -253,12 +257,15 @@ func runOPTAB(c *Ctx, r *Result, rule string) int {
 				o.Verdict, o.Reason = Finding, "no case of the switch in "+shortFn(f)+" computes a value for "+nm
 			case okv:
 				o.Verdict, o.Reason = Discharged, nm+" computes "+ex+" (L, R = the evaluated left and right operands)"
+			case len(exs) > 1:
+				o.Verdict, o.Reason = Finding, nm+" computes different things on different paths ("+ex+"), expected "+strings.Join(sp.want[nm], " or ")+" on every path"
 			default:
 				o.Verdict, o.Reason = Finding, nm+" computes "+ex+", expected "+strings.Join(sp.want[nm], " or ")
 			}
 			r.Add(o)
 		}
-		for nm, ex := range got {
+		for nm, exs := range got {
+			ex := strings.Join(exs, " | ")
 			if _, ok := sp.want[nm]; !ok {
 				n++
 				r.Add(Obligation{Rule: rule, Key: "op:" + nm, Fn: shortFn(f), Pos: c.W.Pos(f.Pos()), Nontrivial: true, Verdict: Finding,
